@@ -195,3 +195,158 @@ def rel(case):
 
 def dispatch(case):
     return globals()[case['fn']](case['case'])
+
+
+# ------------------------------------------------------------------------------------------- full renders
+
+def _eid(b):
+    el = getattr(b, 'element', None)
+    return el.get('id') if el is not None else None
+
+
+def _unwrap(b):
+    return getattr(b, '_box', b) if type(b).__name__ == 'AbsolutePlaceholder' else b
+
+
+def render_floats(case):
+    """Render and list, in document (pre-)order, the floats, line boxes, formatting-context roots, tables and
+    clearing blocks of the root formatting context, each with the content box of its containing block."""
+    from tests.testing_utils import render_pages
+    from weasyprint.formatting_structure import boxes
+    from weasyprint.layout import float as fl
+    placed = {}
+    orig = fl.find_float_position
+
+    def logging_find_float_position(context, box, containing_block):
+        new = orig(context, box, containing_block)
+        placed[id(new)] = (new.position_x, new.position_y)
+        return new
+    fl.find_float_position = logging_find_float_position
+    try:
+        pages = render_pages(case['html'])
+    finally:
+        fl.find_float_position = orig
+    recs = []
+    counter = [0]
+
+    def content_rect(line):
+        """the extent of the in-flow inline content of a line box (the LineBox rectangle itself is not updated
+        when a float met in the line pushes the text)"""
+        xs = []
+
+        def go(b):
+            b = _unwrap(b)
+            if not isinstance(b, boxes.Box) or not b.is_in_normal_flow():
+                return
+            if isinstance(b, boxes.TextBox) or not getattr(b, 'children', None):
+                if b.width and b.width > 0:
+                    xs.append((b.position_x, b.position_x + b.margin_width()))
+                return
+            for c in b.children:
+                go(c)
+        for c in line.children:
+            go(c)
+        if not xs:
+            return None
+        return min(a for a, _ in xs), max(b for _, b in xs)
+
+    def visit(b, cb, in_root_bfc, parent_id):
+        b = _unwrap(b)
+        counter[0] += 1
+        idx = counter[0]
+        is_float = isinstance(b, boxes.Box) and b.style['float'] in ('left', 'right')
+        rec = None
+        if isinstance(b, boxes.Box) and not isinstance(b, (boxes.TextBox, boxes.PageBox, boxes.MarginBox)):
+            kind = None
+            if is_float:
+                kind = 'float'
+            elif isinstance(b, boxes.LineBox):
+                kind = 'line'
+            elif isinstance(b, boxes.BlockBox) and b.is_table_wrapper:
+                kind = 'table'
+            elif isinstance(b, (boxes.BlockBox, boxes.BlockReplacedBox)) and b.is_in_normal_flow() and (
+                    b.establishes_formatting_context() or isinstance(b, boxes.BlockReplacedBox)) and _eid(b) not in (None,) \
+                    and b.element_tag not in ('html',):
+                kind = 'bfc'
+            elif isinstance(b, boxes.BlockBox) and b.is_in_normal_flow():
+                kind = 'block'
+            if kind and in_root_bfc and cb is not None:
+                rec = dict(kind=kind, idx=idx, id=_eid(b), parent=parent_id,
+                           x=b.position_x, y=b.position_y,
+                           mw=b.margin_width(), mh=b.margin_height(),
+                           bx=b.border_box_x(), by=b.border_box_y(), bw=b.border_width(), bh=b.border_height(),
+                           side=b.style['float'], clear=b.style['clear'],
+                           anon=(b.element is None) or bool(getattr(b, 'is_anonymous', False)),
+                           cbx=cb.content_box_x(), cby=cb.content_box_y(), cbw=cb.width, cb_id=_eid(cb))
+                if kind == 'line':
+                    cr = content_rect(b)
+                    rec['cx'], rec['cw'] = (cr[0], cr[1] - cr[0]) if cr else (b.position_x, 0)
+                if kind == 'float':
+                    rec['placed'] = placed.get(id(b))
+                recs.append(rec)
+        inside = in_root_bfc and not (
+            is_float or (isinstance(b, boxes.Box) and not isinstance(b, (boxes.PageBox, boxes.LineBox, boxes.InlineBox, boxes.TextBox))
+                         and b.element_tag != 'html' and b.establishes_formatting_context()))
+        new_cb = b if isinstance(b, boxes.BlockContainerBox) and not isinstance(b, boxes.PageBox) else cb
+        for c in getattr(b, 'children', ()) or ():
+            visit(c, new_cb, inside, idx)
+    for page in pages:
+        visit(page, None, True, 0)
+    return dict(npages=len(pages), recs=recs)
+
+
+def render_abs(case):
+    """Render; for every element whose id starts with 'a' (absolutely positioned) report its margin box, used
+    margins and sizes, and the padding box of the element named by case['cb'][id] (None = the page area)."""
+    from tests.testing_utils import render_pages
+    from weasyprint.formatting_structure import boxes
+    pages = render_pages(case['html'])
+    out = []
+    for pi, page in enumerate(pages):
+        byid = {}
+
+        def visit(b):
+            b = _unwrap(b)
+            if isinstance(b, boxes.Box) and _eid(b) is not None and not isinstance(b, (boxes.LineBox, boxes.TextBox)):
+                byid.setdefault(_eid(b), b)
+            for c in getattr(b, 'children', ()) or ():
+                visit(c)
+        visit(page)
+        for eid, cbid in case['cb'].items():
+            b = byid.get(eid)
+            if b is None:
+                continue
+            if cbid is None:
+                cbrect = (page.content_box_x(), page.content_box_y(), page.width, page.height)
+            else:
+                cb = byid.get(cbid)
+                if cb is None:
+                    continue
+                cbrect = (cb.padding_box_x(), cb.padding_box_y(), cb.padding_width(), cb.padding_height())
+            out.append(dict(id=eid, page=pi, x=b.position_x, y=b.position_y, w=b.width, h=b.height,
+                            ml=b.margin_left, mr=b.margin_right, mt=b.margin_top, mb=b.margin_bottom,
+                            padh=b.padding_left + b.padding_right + b.border_left_width + b.border_right_width,
+                            padv=b.padding_top + b.padding_bottom + b.border_top_width + b.border_bottom_width,
+                            cb=cbrect, replaced=isinstance(b, boxes.ReplacedBox)))
+    return dict(npages=len(pages), boxes=out)
+
+
+def render_positions(case):
+    """Render; the position and size of the first box of every element with an id, per page."""
+    from tests.testing_utils import render_pages
+    from weasyprint.formatting_structure import boxes
+    pages = render_pages(case['html'])
+    out = []
+    for pi, page in enumerate(pages):
+        seen = {}
+
+        def visit(b):
+            b = _unwrap(b)
+            if isinstance(b, boxes.Box) and _eid(b) is not None and not isinstance(b, boxes.LineBox):
+                if _eid(b) not in seen:
+                    seen[_eid(b)] = [b.position_x, b.position_y, b.width, b.height, type(b).__name__]
+            for c in getattr(b, 'children', ()) or ():
+                visit(c)
+        visit(page)
+        out.append(seen)
+    return out
